@@ -31,6 +31,8 @@ type CaseB struct {
 	Keep   int    `json:"keep"`   // this many tasks are never completed
 	M      int    `json:"m"`      // second burst
 	Keep2  int    `json:"keep2"`
+	// session-level messages of the bursting agent at drain levels (0 none, 1.. = sessionMsgs, 4 = COMMAND_CHECKIN callback), one per level, cyclic
+	Session []int `json:"session,omitempty"`
 }
 
 var burstRanges = [][2]int{{1, 4}, {7, 9}, {15, 20}, {30, 40}, {60, 70}, {120, 140}}
@@ -60,6 +62,9 @@ func genB(t *rapid.T) CaseB {
 	r2 := burstRanges[agentfx.Weighted(t, "range2", 3, 3, 2, 1)]
 	c.M = rapid.IntRange(r2[0], r2[1]).Draw(t, "m")
 	c.Keep2 = []int{0, 1}[agentfx.Bits(t, "keep2", 1)]
+	for i := 0; i < 4; i++ {
+		c.Session = append(c.Session, agentfx.Weighted(t, "session", 3, 2, 2, 1, 1))
+	}
 	return c
 }
 
@@ -123,8 +128,20 @@ func expandB(c CaseB) CaseE {
 	add(OpE{Kind: "handout", Agent: other})
 
 	out := 0 // tasks outstanding at the target (model view)
+	lvl := 0
 	probes := func() {
 		n := uint32(len(e.Ops))
+		if len(c.Session) > 0 {
+			switch sm := c.Session[lvl%len(c.Session)]; {
+			case sm >= 1 && sm <= len(sessionMsgs):
+				add(OpE{Kind: "session", Agent: target, Variant: sm - 1})
+			case sm == len(sessionMsgs)+1 && out > 0:
+				// metadata refresh: the final callback of one of the outstanding tasks
+				add(OpE{Kind: "callback", Agent: target, Src: "outstanding", Pick: pick() % out, Force: "checkin", Text: "c", N: n})
+				out--
+			}
+		}
+		lvl++
 		for _, src := range []string{"zero", "completed", "never", "foreign"} {
 			for _, force := range []string{"sleep", "output"} {
 				add(OpE{Kind: "callback", Agent: target, Src: src, Pick: pick(), Force: force, Text: "p", N: n})
@@ -201,7 +218,7 @@ func classifyB(c CaseB) core.Class {
 func TestC05b(t *testing.T) {
 	core.Run(t, core.Spec[CaseB]{
 		Property: "C05", Sub: "b",
-		Rule: "burst and drain on one agent (directly connected, or an SMB child reached through its parent; another agent holds one outstanding task): N tasks with N from {1-4, 7-9, 15-20, 30-40, 60-70, 120-140} are issued in 1-3 groups, each handed out; they are completed by their final callback in fifo / lifo / random order down to 0, 1 or 3 survivors; after every completion (N <= 9) or at about 3/4, 1/2, 1/4, 1/8 of the burst and at 2, 1, 0 outstanding, nine probes run: request id 0, a completed id, a never-issued id, the other agent's outstanding id - each with a final (sleep) and a non-final (output) kind - and a still outstanding id with the non-final kind; then a second burst of 1-40 tasks on the same agent, drained and probed the same way. Expanded into a history of sub-check (a) and judged by the same oracle. Every case is non-trivial; distinct = (burst bucket, second-burst bucket, order, direct/child)",
+		Rule: "burst and drain on one agent (directly connected, or an SMB child reached through its parent; another agent holds one outstanding task): N tasks with N from {1-4, 7-9, 15-20, 30-40, 60-70, 120-140} are issued in 1-3 groups, each handed out; they are completed by their final callback in fifo / lifo / random order down to 0, 1 or 3 survivors; after every completion (N <= 9) or at about 3/4, 1/2, 1/4, 1/8 of the burst and at 2, 1, 0 outstanding, first (per level, generated) a session-level message of the bursting agent - DEMON_INIT again with the same / another key, SMB re-connect for a child, plain check-in, COMMAND_CHECKIN callback - then nine probes run: request id 0, a completed id, a never-issued id, the other agent's outstanding id - each with a final (sleep) and a non-final (output) kind - and a still outstanding id with the non-final kind; then a second burst of 1-40 tasks on the same agent, drained and probed the same way. Expanded into a history of sub-check (a) and judged by the same oracle. Every case is non-trivial; distinct = (burst bucket, second-burst bucket, order, direct/child)",
 		Gen:  genB, Check: checkB, Classify: classifyB,
 		Assumptions: []string{"same model and oracle as (a); whether a still outstanding id is accepted is counted (labels accepted-with-effect / accepted-without-effect), not asserted: the statement is an only-if"},
 	})
